@@ -24,7 +24,31 @@ func mutateSource(r *rand.Rand, src string, k int) string {
 	}
 	for e := 0; e < k; e++ {
 		i := r.Intn(len(toks))
-		switch r.Intn(6) {
+		switch r.Intn(8) {
+		case 6:
+			// one more element in a list: ", x" in front of a closing parenthesis / brace or behind a value (calls with a
+			// surplus argument, returns and definitions with a surplus value)
+			extra := []string{"1", "x", "\"a\"", "true", "f()", "[]int{1}"}[r.Intn(6)]
+			for j := 0; j < len(toks); j++ {
+				k := (i + j) % len(toks)
+				if toks[k] == ")" || toks[k] == "}" || toks[k] == "\n" {
+					toks = append(toks[:k], append([]string{", ", extra}, toks[k:]...)...)
+					break
+				}
+			}
+		case 7:
+			// one element less: drop from a comma to the token in front of the next comma / closing parenthesis
+			for j := 0; j < len(toks); j++ {
+				k := (i + j) % len(toks)
+				if toks[k] == "," {
+					e2 := k + 1
+					for e2 < len(toks) && toks[e2] != "," && toks[e2] != ")" && toks[e2] != "\n" {
+						e2++
+					}
+					toks = append(toks[:k], toks[e2:]...)
+					break
+				}
+			}
 		case 0:
 			toks = append(toks[:i], toks[i+1:]...)
 		case 1:
@@ -176,6 +200,46 @@ func init() {
 			g.addCase("parse", f...)
 			g.addCase("emit", f...)
 		}
+		// near misses of valid programs in which a list has one element too many or too few
+		for _, src := range arityNearMisses {
+			f := progFields("main.tsh", map[string]string{"main.tsh": src}, false)
+			g.addCase("parse", f...)
+			g.addCase("emit", f...)
+			kinds["arity-near-miss"]++
+		}
 		g.meta["fuzz_kinds"] = kinds
 	}
+}
+
+const arityPrelude = "func one(n int) int {\n\treturn n * 2\n}\nfunc none() int {\n\treturn 7\n}\nfunc two(a int, b string) (int, string) {\n\treturn a, b\n}\nfunc void(a int) {\n\tprint(a)\n}\n"
+
+var arityNearMisses = []string{
+	arityPrelude + "print(one(1, 2))\n",
+	arityPrelude + "print(one())\n",
+	arityPrelude + "print(none(1))\n",
+	arityPrelude + "x := one(1, 2, 3)\nprint(x)\n",
+	arityPrelude + "a, b := two(1, \"s\", 3)\nprint(a, b)\n",
+	arityPrelude + "a, b := two(1)\nprint(a, b)\n",
+	arityPrelude + "a, b, c := two(1, \"s\")\nprint(a, b, c)\n",
+	arityPrelude + "a := two(1, \"s\")\nprint(a)\n",
+	arityPrelude + "void(1, 2)\n",
+	arityPrelude + "void()\n",
+	arityPrelude + "print(one(one(1, 2)))\n",
+	arityPrelude + "print(one(none(3)))\n",
+	arityPrelude + "for i := 0; i < one(1, 2); i++ {\n\tprint(i)\n}\n",
+	arityPrelude + "if one(1, 2) > 0 {\n\tprint(1)\n}\n",
+	"func r1() int {\n\treturn 1, 2\n}\nprint(r1())\n",
+	"func r2() (int, int) {\n\treturn 1\n}\na, b := r2()\nprint(a, b)\n",
+	"func r0() {\n\treturn 1\n}\nr0()\n",
+	"a, b := 1\nprint(a, b)\n",
+	"a := 1, 2\nprint(a)\n",
+	"var a, b int = 1\nprint(a, b)\n",
+	"var a int = 1, 2\nprint(a)\n",
+	"a, b := 1, 2\na, b = 3\nprint(a, b)\n",
+	"a := 1\na = 2, 3\nprint(a)\n",
+	"xs := []int{1, 2}\nprint(len(xs, xs))\n",
+	"xs := []int{1, 2}\nys := []int{}\nprint(copy(ys))\n",
+	"xs := []int{1, 2}\nys := []int{}\nprint(copy(ys, xs, xs))\n",
+	"print(itoa(1, 2))\n",
+	"print(itoa())\n",
 }
